@@ -41,8 +41,8 @@ CLAUSES = {
     "every other socket it opened is closed": "no_new_streams_after_done; tie only: losers_closed_goal (Spec clause 4)",
     "at most one attempt per address family is in flight at a time": "tie only: one_inflight_per_family_goal (Spec clause 5)",
 }
-PARALLEL = True
-CASE_TIMEOUT = 20
+PARALLEL = False      # 5000 cases take ~2.5 s serially; a forked pool only adds stalls on a loaded machine
+CASE_TIMEOUT = 60
 
 ALPHABET = [["b", [[0, True]]], ["b", [[0, False]]], ["b", [[1, True]]], ["b", [[1, False]]],
             ["b", [[0, True], [0, True]]], ["b", [[0, False], [0, True]]], ["b", [[0, True], [0, False]]],
